@@ -42,7 +42,8 @@ def cfg_c_obligations(ctx, prop):
     if prop in ("C04", "C05", "C07", "C09", "C12", "C13", "C02"):
         obs += r_err.run(fc, cfgname="C")
     if prop in ("C01", "C05"):
-        o, summ = r_short.run(fc, "C")
+        import p_gate
+        o, summ = r_short.run(fc, "C", reach=p_gate.driver_reach(fc))
         obs += o
     if prop in ("C01", "C02", "C03", "C10", "C14"):
         saved = dict(p_role._roles)
